@@ -130,7 +130,8 @@ def task_energy_totals(ctx):
             return mol, ho, out
 
         stubs = energy_stubs(rec)
-        stubs[BAS + ":calc_ground_dipole"] = lambda molecule, Pm: setattr(molecule, "dipole", st.symbolic((molecule.nmol, 3), "dip"))
+        stubs[BAS + ":calc_ground_dipole"] = lambda molecule, Pm: (rec.__setitem__("dipole_density", Pm), setattr(molecule, "dipole", st.symbolic((molecule.nmol, 3), "dip")))[1]
+        rec.pop("dipole_density", None)
         ex = ctx.explore(thunk, stubs=stubs, name="Energy.forward[%s]" % tag)
         if len(ex.paths) != 1 or ex.paths[0].raised is not None:
             ctx.error(tag + ".paths", "expected one path: %r %s" % ([p.raised for p in ex.paths], ex.paths[0].notes.get("traceback", "")[-800:] if ex.paths else ""))
@@ -163,10 +164,139 @@ def task_energy_totals(ctx):
             ctx.prove("%s.notconverged[%d]-is-the-SCF-flag" % (tag, m), notconv.a[m] == ho[10].a[m])
         ctx.prove(tag + ".density-returned-is-the-SCF-density", E.and_(*[E.eq(a.n, b.n) for a, b in zip(Pm.a.reshape(-1), ho[2].a.reshape(-1))]))
         ctx.prove(tag + ".orbital-energies-returned-are-the-SCF-ones", E.and_(*[E.eq(a.n, b.n) for a, b in zip(e.a.reshape(-1), ho[1].a.reshape(-1))]))
+        dd = rec.get("dipole_density")
+        if dd is None:
+            ctx.fail(tag + ".dipole-is-computed-from-the-returned-density", "calc_ground_dipole was not called")
+        else:
+            ctx.prove(tag + ".dipole-is-computed-from-the-returned-density", E.and_(*[E.eq(a.n, b.n) for a, b in zip(dd.a.reshape(-1), Pm.a.reshape(-1))]))
         if tag == "OH+HH":
             ctx.canary_eq("Etot-mixes-molecules", Etot.a[0], rec["Eelec"].a[0] + rec["EnucAB"].a[0] + rec["EnucAB"].a[1])
     ctx.assume_note("callee contracts (proved or assumed elsewhere): hamiltonian returns (F,e,P,Hcore,w,charge,...,notconverged,C) [C03], pair_nuclear_energy [C06], elec_energy [C03/C09]; batch layouts: %s" % ", ".join(BATCH_SHAPES))
     ctx.undecided_clause("orbital energies are eigenvalues of the reported Fock matrix (LAPACK, A2); excited-state branch of Energy.forward")
+
+
+
+def replay_xl_dipole(model):
+    """real code: one XL-BOMD-mode evaluation (dm_prop='XL-BOMD') of AM1 water with the auxiliary density taken from a displaced
+    geometry; the dipole published must be the one implied by the published density (calc_ground_dipole of molecule.dm)."""
+    import io, contextlib, copy
+    import torch
+    from seqm.seqm_functions.constants import Constants
+    from seqm.Molecule import Molecule
+    from seqm.ElectronicStructure import Electronic_Structure
+    from seqm.seqm_functions.dipole import calc_ground_dipole
+
+    torch.set_default_dtype(torch.float64)
+    params = {"method": "AM1", "scf_eps": 1e-9, "scf_converger": [1], "sp2": [False, 1e-5], "elements": [0, 1, 8], "learned": [], "pair_outer_cutoff": 1e10, "eig": True}
+    sp = torch.tensor([[8, 1, 1]])
+    x0 = torch.tensor([[[0.0, 0.0, 0.0], [0.96, 0.0, 0.0], [-0.24, 0.93, 0.0]]])
+    with contextlib.redirect_stdout(io.StringIO()):
+        m0 = Molecule(Constants(), params, x0 + torch.tensor([[[0.0, 0, 0], [0.05, 0, 0], [0.0, 0, 0]]]), sp)
+        Electronic_Structure(params)(m0)
+        P0 = m0.dm.detach().clone()
+        mol = Molecule(Constants(), params, x0, sp)
+        Electronic_Structure(params)(mol, P0=P0, dm_prop="XL-BOMD", xl_bomd_params={"k": 5})
+        got = mol.dipole.detach().clone() if hasattr(mol, "dipole") else mol.d.detach().clone()
+        calc_ground_dipole(mol, mol.dm.detach())
+        want = mol.dipole.detach().clone() if hasattr(mol, "dipole") else mol.d.detach().clone()
+    dev = float((got - want).abs().max())
+    return {"reproduced": dev > 1e-10, "dipole_published": got.reshape(-1).tolist(), "dipole_of_the_published_density": want.reshape(-1).tolist(), "max_abs_difference": dev}
+
+
+def task_energy_xl_observables(ctx):
+    """EnergyXL.forward (the energy routine of the XL-BOMD engines; non-Krylov branch, all_terms=True): the density D it returns is
+    the one sym_eig_trunc built from F(P); the dipole routine receives that D (not the auxiliary field P); the energy functional
+    receives (D, P, F, Hcore) in that order; Etot = Eelec + own pair terms; Hf = Etot - Eiso + eheat.  Callees replaced by recorders."""
+    import seqm.dynamics.xlbomd as XL
+    import torch as rt
+
+    XLM = "seqm.dynamics.xlbomd"
+    fn = ctx.under_contract(XLM + ":EnergyXL.forward", stubs=["Parser", "Pack_Parameters", "hcore", "fock", "sym_eig_trunc", "pair_nuclear_energy", "elec_energy_xl", "calc_ground_dipole"])
+    rep = []
+
+    def rp(mdl):
+        if not rep:
+            try:
+                rep.append(replay_xl_dipole({}))
+            except Exception as exc:  # noqa
+                rep.append({"reproduced": False, "error": repr(exc)[:300]})
+        return rep[0]
+
+    for tag, species in (("OH+HH", None), ("OHH+HH.", [[8, 1, 1], [1, 1, 0]])):
+        rec = {}
+
+        def thunk():
+            mol = ghost_es_molecule(species=species)
+            _const_tables(mol)
+            n = 4 * mol.molsize
+            en = object.__new__(XL.EnergyXL)
+            rt.nn.Module.__init__(en)
+            fields = ("nmol", "molsize", "nSuperHeavy", "nHeavy", "nHydro", "nocc", "Z", "maskd", "atom_molid", "mask", "pair_molid", "ni", "nj", "idxi", "idxj", "xij", "rij")
+            mol.nSuperHeavy = st.zeros(mol.nmol, dtype=st.int64)
+            mol.nHeavy = st.tensor([sum(1 for z in row if z > 1) for row in mol.species.a.tolist()])
+            mol.nHydro = st.tensor([sum(1 for z in row if z == 1) for row in mol.species.a.tolist()])
+            pars = dict(mol.parameters)
+            en.__dict__.update(seqm_parameters={"method": "AM1", "scf_eps": 1e-6}, method="AM1", excited_states=None, Hf_flag=True,
+                               parser=lambda molecule, method, *a, **k: tuple(getattr(molecule, f) for f in fields),
+                               packpar=lambda Z, learned_params=None: (dict(pars, beta_s=st.symbolic((len(mol.flat),), "bs"), beta_p=st.symbolic((len(mol.flat),), "bp")), None, None))
+            Paux = st.symbolic((mol.nmol, n, n), "Paux")
+            rec["Paux"] = Paux
+            out = fn(en, mol, Paux, None, {}, xl_bomd_params={"k": 5}, all_terms=True)
+            return mol, out
+
+        def hcore_stub(molecule):
+            npair, nat = len(molecule.pairs), molecule.nmol * molecule.molsize * molecule.molsize
+            rec["M"] = st.symbolic((nat, 4, 4), "M")
+            return rec["M"], st.symbolic((npair, 10, 10), "w"), st.symbolic((npair,), "rho0xi"), st.symbolic((npair,), "rho0xj"), None, None
+
+        def fock_stub(nmol, molsize, Pm, M, *a):
+            rec["fock_density"] = Pm
+            rec["F"] = st.symbolic((nmol, 4 * molsize, 4 * molsize), "F")
+            return rec["F"]
+
+        def eig_stub(F, nHeavy, nHydro, nocc):
+            rec["eig_F"] = F
+            n = F.a.shape[-1]
+            rec["e"], rec["D"], rec["C"] = st.symbolic((F.a.shape[0], n), "e"), st.symbolic((F.a.shape[0], n, n), "D"), st.symbolic((F.a.shape[0], n, n), "C")
+            return rec["e"], rec["D"], rec["C"]
+
+        def pne(Z, const, nmol, ni, nj, idxi, idxj, rij, rho0xi, rho0xj, alp, chi, gam=None, method="AM1", parameters=None):
+            rec["EnucAB"] = st.symbolic((len(ni),), "EnucAB")
+            return rec["EnucAB"]
+
+        def eexl(D, Pm, F, Hcore):
+            rec["eexl_args"] = (D, Pm, F, Hcore)
+            rec["Eelec"] = st.symbolic((D.a.shape[0],), "Eelec")
+            return rec["Eelec"]
+
+        stubs = {XLM + ":hcore": hcore_stub, XLM + ":fock": fock_stub, XLM + ":sym_eig_trunc": eig_stub, XLM + ":pair_nuclear_energy": pne, XLM + ":elec_energy_xl": eexl,
+                 XLM + ":calc_ground_dipole": lambda molecule, Pm: (rec.__setitem__("dipole_density", Pm), setattr(molecule, "dipole", st.symbolic((molecule.nmol, 3), "dip")))[1]}
+        ex = ctx.explore(thunk, stubs=stubs, name="EnergyXL.forward[%s]" % tag)
+        if len(ex.paths) != 1 or ex.paths[0].raised is not None:
+            ctx.error(tag + ".paths", "expected one path: %r %s" % ([p.raised for p in ex.paths], ex.paths[0].notes.get("traceback", "")[-900:] if ex.paths else ""))
+            continue
+        mol, out = ex.paths[0].value
+        Hf, Etot, Eelec, EEnt, Enuc, Eiso_sum, EnucAB, D, dP2dt2, Error, e_gap, e, Fe_occ = out
+        same = lambda a, b: E.and_(*[E.eq(x.n, y.n) for x, y in zip(a.a.reshape(-1), b.a.reshape(-1))]) if a.a.shape == b.a.shape else E.const(False)
+        ctx.prove(tag + ".fock-is-built-from-the-auxiliary-density", same(rec["fock_density"], rec["Paux"]))
+        ctx.prove(tag + ".density-returned-is-the-one-diagonalisation-built-from-F(P)", E.and_(same(D, rec["D"]), same(rec["eig_F"], rec["F"])))
+        dd = rec.get("dipole_density")
+        if dd is None:
+            ctx.fail(tag + ".dipole-is-computed-from-the-returned-density", "calc_ground_dipole was not called", replay=rp)
+        else:
+            ctx.prove(tag + ".dipole-is-computed-from-the-returned-density", same(dd, D), replay=rp, classify=lambda m_, r: "dipole-of-another-density")
+        a0, a1, a2, a3 = rec["eexl_args"]
+        Hc = rec["M"].reshape(mol.nmol, mol.molsize, mol.molsize, 4, 4).transpose(2, 3).reshape(mol.nmol, 4 * mol.molsize, 4 * mol.molsize)
+        ctx.prove(tag + ".energy-functional-receives-(D, P, F, Hcore)", E.and_(same(a0, D), same(a1, rec["Paux"]), same(a2, rec["F"]), same(a3, Hc)))
+        pm = [int(x) for x in mol.pair_molid.a]
+        for m in range(mol.nmol):
+            nuc = sum((rec["EnucAB"].a[k] for k in range(len(pm)) if pm[k] == m), S(0))
+            ctx.prove_eq("%s.Etot[%d]=Eelec+Enuc" % (tag, m), Etot.a[m], rec["Eelec"].a[m] + nuc)
+            nocc = int(mol.nocc.a[m])
+            ctx.prove_eq("%s.gap[%d]=e[LUMO]-e[HOMO]" % (tag, m), e_gap.a[m], rec["e"].a[m, nocc] - rec["e"].a[m, nocc - 1])
+        ctx.prove(tag + ".orbital-energies-returned-are-the-diagonalisation's", same(e, rec["e"]))
+    ctx.assume_note("EnergyXL.forward: non-Krylov branch (no max_rank), ground state, AM1; batch layouts OH+HH and OHH+HH with padding")
+    ctx.undecided_clause("Krylov branch of EnergyXL.forward (Fermi operator expansion, rank-m kernel): observables of that branch are not under this contract")
 
 
 def replay_uhf_gap(model):
@@ -363,5 +493,5 @@ def task_force_plumbing(ctx):
         ctx.prove("tuple[%d]<-%s" % (pos, slot), E.and_(*[E.eq(a.n, b.n) for a, b in zip(out[pos].a.reshape(-1), vals[slot].a.reshape(-1))]))
 
 
-TASKS_QUICK = ["energy_totals", "energy_totals_uhf", "binding", "dipole", "force_plumbing"]
+TASKS_QUICK = ["energy_totals", "energy_xl_observables", "energy_totals_uhf", "binding", "dipole", "force_plumbing"]
 TASKS_THOROUGH = TASKS_QUICK
